@@ -54,7 +54,7 @@ func runShard(id string, thorough bool, shard, n int) *shardResult {
 		res.Scenarios++
 		var st *exploreStats
 		for bi, b := range p.bounds {
-			if b < 0 && strings.HasPrefix(sc.Name, "3x2 ") {
+			if b < 0 && (strings.HasPrefix(sc.Name, "3x2 ") || strings.HasPrefix(sc.Name, "4x1 ")) {
 				continue // 3 threads x 2 ops: preemption bound 2 directly (the unbounded space is ~10^5..10^6 schedules each)
 			}
 			st = explore(sc, b, p.caps[bi], p.outcome)
